@@ -95,7 +95,7 @@ def check(prop, tier, seed, jobs):
                 results.append(sr)
                 continue
             for k in ("paths", "feasible_paths", "decisions", "obligations", "discharged", "witnesses", "unrealisable",
-                      "solver_s", "int_checks", "bv_checks", "exhausted", "int_decides"):
+                      "solver_s", "int_checks", "bv_checks", "exhausted", "int_decides", "wide_witnesses"):
                 tgt[k] = tgt.get(k, 0) + sr.get(k, 0)
             for k in ("violations", "known", "witness_failures", "inconclusive", "errors", "notes", "samples"):
                 tgt[k] = list(tgt.get(k, [])) + [x for x in sr.get(k, []) if k != "known" or x not in tgt.get(k, [])]
@@ -160,6 +160,7 @@ def check(prop, tier, seed, jobs):
                          deciding_int=sum(r.get("int_decides", 0) for r in results), unknown=len([i for i in inconclusive if i.startswith("solver")])),
             solver_s=round(sum(r["solver_s"] for r in results) + pre_info.get("solver_s", 0.0), 2),
             paths_total=sum(r["paths"] for r in results),
+            wide_offset_witnesses=sum(r.get("wide_witnesses", 0) for r in results),
             unrealisable_counterexamples=sum(r.get("unrealisable", 0) for r in results),
             exceptions_on_feasible_paths={k: sum(r.get("exceptions", {}).get(k, 0) for r in results)
                                           for k in {k for r in results for k in r.get("exceptions", {})}},
